@@ -319,6 +319,8 @@ def run_case(case, tape, ctx):
     bad = [s for s in subs if s['outcome'] != 'ok']
     if bad:
         return W.result(viol, agg, outcome=bad[0]['outcome'])
+    if W.process_raised(viol, 'C12-4', nrt):
+        return W.result(viol, agg)
     pure = not changes_map(prog) and not model.cross_tie
     if model.cross_tie:
         stats['cross-clock-tie'] = 1
